@@ -15,9 +15,8 @@ def r1(ctx, prog):
     f = prog.fn("mi_heap_visit_pages")
     full = prog.const("MI_BIN_FULL")
     ok = False
-    for l in f.all(kind="ForStmt"):
-        c = rl.cmp_parts(f, f.nodes[l].get("cond", -1)) if f.nodes[l].get("cond") is not None else None
-        if c and ((c[0] == "<=" and f.cv(c[2]) == full) or (c[0] == "<" and f.cv(c[2]) == full + 1)):
+    for L in rl.counted_loops(f):
+        if L["first"] is not None and f.cv(L["first"]) == 0 and ((L["op"] == "<=" and f.cv(L["bound"]) == full) or (L["op"] == "<" and f.cv(L["bound"]) == full + 1)):
             ok = True
     ctx.check(R, ok, f.where(), "loop bound covers bins 0..%d" % full, key="C12.R1:bound")
     calls = [c for c in f.all(kind="CallExpr") if f.nodes[c].get("callee") is None and rl.var_of(f, f.nodes[c]["fn"]) == f.param_id(1)]
@@ -25,7 +24,7 @@ def r1(ctx, prog):
     nexts = [dd["d"] for _, dd in rl.var_init_from(f, lambda j: rl.field_is(f, j, "next"))]
     for c in calls:
         w = rl.precedes(f, lambda e: f.nodes[e]["k"] == "DeclStmt" and any(dd["d"] in nexts for dd in f.nodes[e]["decls"]), c,
-                        starts=[p for p in [f.cfg.pt(x) for x in f.all(kind="WhileStmt")] if p])
+                        starts=[p for p in [f.cfg.pt(L["node"]) for L in f.loops() if not any(L["node"] == cl["loop"] for cl in rl.counted_loops(f))] if p])
         pg = rl.var_of(f, f.nodes[c]["args"][2])
         adv = [a for a, rhs, op in f.var_defs(pg) if op == "=" and rhs is not None and rl.var_of(f, rhs) in nexts] if pg is not None else []
         ok = bool(nexts) and bool(adv) and f.cfg.must_pass([f.cfg.after(adv[0])] if adv else [f.cfg.entry], [f.cfg.pt(c)], lambda e: f.nodes[e]["k"] == "DeclStmt" and any(dd["d"] in nexts for dd in f.nodes[e]["decls"])) is None
@@ -93,7 +92,7 @@ def r3(ctx, prog):
         u = rl.result_use(g, vis[0])
         okd = isinstance(u, tuple)
         d = rl.var_of(g, u[1]) if (okd and u[0] == "assign") else (u[1] if okd else None)
-        loops = [l for l in g.all(kind="WhileStmt") if d is not None and g.mentions_decl(g.nodes[l]["cond"], d)]
+        loops = [L["node"] for L in g.loops() if d is not None and L["cond"] is not None and g.mentions_decl(L["cond"], d)]
         rets = [r for r in g.all(kind="ReturnStmt") if "val" in g.nodes[r] and rl.var_of(g, g.nodes[r]["val"]) == d]
         ctx.check(R, bool(loops) and bool(rets), g.where(), "the loop stops on !ok and ok is returned", key="C12.R3:abandoned:stop")
     h = prog.fn("_mi_segment_visit_blocks")
@@ -151,7 +150,7 @@ def r5(ctx, prog):
     if not bs:
         raise AnalysisBroken("C12.R5: bsize local not found")
     b = bs[0]
-    adv = [(a, rhs) for n in f.nodes if n["k"] == "CompoundAssignOperator" and n["op"] == "+=" for a, rhs in [(n["i"], n["c"][1])]]
+    adv = [(a, opnd) for a, lhs, kind, opnd in f.updates() if kind == "add" and opnd != 1]
     pm = {d: "$%d" % k for k, d in enumerate(f.pids)}
     pm[b] = "#bsize"
     texts = sorted(rl.canon(f, rhs, pm).replace(" ", "") for a, rhs in adv)
